@@ -77,7 +77,7 @@ def main():
     my_fes = getattr(prop, "FRONT_ENDS", [])
     fe_filter = getattr(prop, "FRONT_END_FILTER", {})
     for fe, msg in tr_errors.items():
-        if fe in my_fes and (fe not in fe_filter or fe_filter[fe] in msg):
+        if fe in my_fes and (fe not in fe_filter or any(k in msg for k in ([fe_filter[fe]] if isinstance(fe_filter[fe], str) else fe_filter[fe]))):
             broken.append(f"translator[{fe}]: {msg}")
     if not build_ok:
         errs = [ln for ln in build_log.splitlines() if "Error" in ln or ln.startswith("File ") or "rror:" in ln]
